@@ -4,6 +4,7 @@ go 1.20
 
 require (
 	github.com/tableauio/tableau v0.0.0
+	github.com/xuri/excelize/v2 v2.6.1
 	google.golang.org/protobuf v1.34.2
 )
 
@@ -26,7 +27,6 @@ require (
 	github.com/subchen/go-xmldom v1.1.2 // indirect
 	github.com/twitchyliquid64/golang-asm v0.15.1 // indirect
 	github.com/xuri/efp v0.0.0-20220603152613-6918739fd470 // indirect
-	github.com/xuri/excelize/v2 v2.6.1 // indirect
 	github.com/xuri/nfp v0.0.0-20220409054826-5e722a1d9e22 // indirect
 	go.uber.org/atomic v1.7.0 // indirect
 	go.uber.org/multierr v1.8.0 // indirect
